@@ -319,8 +319,10 @@ def parent_map(root: ast.AST) -> dict[int, ast.AST]:
     return out
 
 
-def same_expr(a: ast.AST, b: ast.AST) -> bool:
+def same_expr(a: Optional[ast.AST], b: Optional[ast.AST]) -> bool:
     from .formula import canon
+    if a is None or b is None:
+        return False
     return canon(a) == canon(b)
 
 
